@@ -328,7 +328,7 @@ pub fn decode(target: &str, data: &[u8]) -> Vec<(&'static str, Value)> {
                 }
             }
             new.ann_calls = new.canonical_ann_calls();
-            vec![("C18", serde_json::to_value(c18::Case { old, new, edits }).unwrap())]
+            vec![("C18", serde_json::to_value(c18::Case { old, new, edits, path: PathSel::Bin(3) }).unwrap())]
         }
         // matrices, set similarities, clustering, enrichment
         "numeric" => match r.u8() % 4 {
